@@ -485,6 +485,36 @@ func runBatch(id int, b batch, rng *common.Rng) (string, bool) {
 			_, err := bm.Fitness_default(in, exp, uint64(ticks))
 			ok = ok && err == nil
 		}
+	case "heapdly", "heapseq":
+		// retained simulator state: live heap after GC over N finished simulations (after a warm-up), with a
+		// delay table whose opcodes are executed (heapdly) or without delays (heapseq)
+		fn = "SinglePipelineSimulate"
+		bm, err := b.M.build()
+		if err != nil {
+			return "", false
+		}
+		var sd *simbox.SimDelays
+		if b.Mode == "heapdly" {
+			sd = delayKind("normal")
+			sd.OpcodeDelays["i2rw"] = simbox.DelayDistribution{1: 1.0}
+		}
+		one := func() {
+			in := rng.Intn(200)
+			res, err := bm.SinglePipelineSimulate("unsigned", []string{fmt.Sprintf("%d", in)}, sd)
+			ok = ok && err == nil && len(res) == 1 && res[0] == fmt.Sprintf("%d", b.M.expect(in))
+		}
+		for i := 0; i < 1000; i++ {
+			one()
+		}
+		settle()
+		runtime.GC()
+		h0 := liveHeap()
+		for i := 0; i < b.N; i++ {
+			one()
+		}
+		settle()
+		runtime.GC()
+		lastHeapGrow = int64(liveHeap()) - int64(h0)
 	case "fiterr":
 		// Fitness_default with an `exp` simbox it has to refuse: every error return must leave nothing
 		// behind, whatever stage it comes from (the expected-values box is examined by SimReport.Init)
@@ -615,6 +645,8 @@ func runBatch(id int, b batch, rng *common.Rng) (string, bool) {
 		id, b.Mode, b.N, b.K, b.M.total(), ticks, fn, shut, dtf, b.M.String()), ok
 }
 
+var lastHeapGrow int64 = -1 // heapdly / heapseq: live-heap growth over the N measured simulations
+
 // regSizes: the process-wide registries a finished simulation must leave as it found them
 func regSizes() [3]int {
 	return [3]int{len(bmnumbers.AllTypes), len(bmnumbers.AllMatchers), len(procbuilder.Allopcodes)}
@@ -681,8 +713,12 @@ func measure(id int, b batch, rng *common.Rng) {
 	if ok && res == "" {
 		okS = 1
 	}
-	out.Line("M id=%d%s other=%d total=%d ok=%d types=%d matchers=%d opcodes=%d heap=%d sites=%s", id, sb.String(), other, total, okS,
-		regAfter[0]-regBefore[0], regAfter[1]-regBefore[1], regAfter[2]-regBefore[2], int64(heapAfter)-int64(heapBefore), strings.Join(others, ","))
+	hg := ""
+	if strings.HasPrefix(b.Mode, "heap") {
+		hg = fmt.Sprintf(" heapgrow=%d", lastHeapGrow)
+	}
+	out.Line("M id=%d%s other=%d total=%d ok=%d types=%d matchers=%d opcodes=%d heap=%d%s sites=%s", id, sb.String(), other, total, okS,
+		regAfter[0]-regBefore[0], regAfter[1]-regBefore[1], regAfter[2]-regBefore[2], int64(heapAfter)-int64(heapBefore), hg, strings.Join(others, ","))
 	out.Flush()
 }
 
@@ -749,6 +785,9 @@ func runAll(tier string) {
 		next(batch{Mode: "seqdyn", N: 10, M: genMach(rng, 3), DT: dts[rng.Intn(len(dts))]})
 		next(batch{Mode: "seqdyn", N: 100, M: genMach(rng, 2), DT: dts[rng.Intn(len(dts))]})
 		next(batch{Mode: "pardyn", N: 20, K: 2 + rng.Intn(4), M: genMach(rng, 3), DT: dts[rng.Intn(2)]})
+		// retained state: live heap over thousands of finished simulations
+		next(batch{Mode: "heapdly", N: 6000, M: machSpec{P: 1, Rsize: 8, Incs: []int{2}}})
+		next(batch{Mode: "heapseq", N: 3000, M: machSpec{P: 2, Rsize: 16, Incs: []int{1, 1}}})
 		// machines that list / execute the command-channel opcodes (emulation drivers absent)
 		for _, ck := range []string{"list", "exec"} {
 			next(batch{Mode: "seq", N: 10, M: genCmdMach(rng, 3, ck)})
